@@ -76,7 +76,7 @@ def run_impl(histories, profile="debug", snap=False, timeout=600, exe=None, env=
         try:
             if profile == "asan" and env is None:
                 env = dict(os.environ, ASAN_OPTIONS="detect_leaks=0:abort_on_error=1")
-            p = subprocess.run(args, input=inp, capture_output=True, text=True, timeout=timeout, env=env)
+            p = subprocess.run(args, input=inp, capture_output=True, text=True, timeout=timeout, env=env, errors="replace")
             rc = p.returncode
             stdout = p.stdout
             stderr = p.stderr
